@@ -531,7 +531,7 @@ class AdditionOperator(BinaryOperator):
     def term(self, time="t"):
         if self.arrayed:
             if self.index == None:  # Can not resolve arrayed equations without index
-                return "0.0"
+                raise OperatorError("An arrayed expression cannot be used where a single value is expected")
 
             el1_arrayed = isinstance(
                 self.element_1, BPTK_Py.sddsl.element.Element) and self.element_1._elements.vector_size()
@@ -592,7 +592,7 @@ class SubtractionOperator(BinaryOperator):
     def term(self, time="t"):
         if self.arrayed:
             if self.index == None:  # Can not resolve arrayed equations without index
-                return "0.0"
+                raise OperatorError("An arrayed expression cannot be used where a single value is expected")
 
             el1_arrayed = isinstance(
                 self.element_1, BPTK_Py.sddsl.element.Element) and self.element_1._elements.vector_size()
@@ -652,7 +652,7 @@ class DivisionOperator(BinaryOperator):
     def term(self, time="t"):
         if self.arrayed:
             if self.index == None:  # Can not resolve arrayed equations without index
-                return "0.0"
+                raise OperatorError("An arrayed expression cannot be used where a single value is expected")
 
             el1_arrayed = isinstance(
                 self.element_1, BPTK_Py.sddsl.element.Element) and self.element_1._elements.vector_size()
@@ -715,7 +715,7 @@ class NumericalMultiplicationOperator(BinaryOperator):
         self.el1_arrayed = self._is_element_arrayed(self.element_1)
         if self.arrayed:
             if self.index == None:  # Can not resolve arrayed equations without index
-                return "0.0"
+                raise OperatorError("An arrayed expression cannot be used where a single value is expected")
 
             # either operand may be the arrayed one: -vector has it on the left, 2.0*matrix on the right
             cur_el1 = self.element_1
@@ -766,7 +766,7 @@ class MultiplicationOperator(BinaryOperator):
     def term(self, time="t"):
         if self.arrayed:
             if self.index == None:  # Can not resolve arrayed equations without index
-                return "0.0"
+                raise OperatorError("An arrayed expression cannot be used where a single value is expected")
 
             el1_arrayed = isinstance(
                 self.element_1, BPTK_Py.sddsl.element.Element) and self.element_1._elements.vector_size()
@@ -899,7 +899,7 @@ class DotOperator(BinaryOperator):
                         result += "({}) * ({}) + ".format(
                             self.element_1[i].term(time), self.element_2[i].term(time))
                     return result[:-3]
-            return "0.0"
+            raise OperatorError("A matrix or vector valued dot product cannot be used where a single value is expected")
 
         # Value
 
